@@ -71,12 +71,13 @@ func (s *ShardedIndex) Size() int {
 func (s *ShardedIndex) Iterator(reverse bool) *IndexIterator {
 	iters := make([]iterator, 0, s.cap)
 	for i := 0; i < s.cap; i++ {
-		s.indexLock[i].RLock()
+		// 创建迭代器可能修改底层索引 (B 树的 Clone 会标记节点为共享), 需要持有写锁
+		s.indexLock[i].Lock()
 		it := s.index[i].iterator(reverse)
 		if it.valid() {
 			iters = append(iters, it)
 		}
-		s.indexLock[i].RUnlock()
+		s.indexLock[i].Unlock()
 	}
 	return newIndexIterator(iters, reverse)
 }
